@@ -60,10 +60,11 @@ func (o ObjectInfo) dereferenceUserTypeProperties(userTypeName string) []Propert
 	si := d.result.list()
 
 	for _, child := range si {
+		// An inherited type can be written as an empty object beside an "or" rule
+		// ({} // {or: [{type: "object"}, "string"]}): its alternatives which are not
+		// objects have no properties to list.
 		if oi, ok := child.(ObjectInformer); ok {
 			result = append(result, oi.PropertiesInfos()...)
-		} else {
-			panic(errs.ErrRuntimeFailure.F())
 		}
 	}
 
